@@ -285,6 +285,12 @@ class Table:
             args = (c, args[2], args[1]) if flipped else (c, args[1], args[2])
             if isinstance(args[1], RF) and isinstance(args[2], RF) and self.equal(args[1], args[2]):
                 return args[1]
+        if head == 'idx' and len(args) == 2 and isinstance(args[0], RF) and getattr(self, 'scalars', None):
+            # quantities a rule declares scalar (a radius, the first element of a 1-D array): picking an element
+            # or a slice of an expression leaves them alone, so hoisting `r = R + z` out of a loop and writing
+            # `r[i]` is the same as `R + z[i]`
+            if any(self.equal(args[0], sc) for sc in self.scalars):
+                return args[0]
         if head == 'elem' and len(args) == 2 and isinstance(args[0], RF):
             # the i-th item of zip(a, b) is (a_i, b_i); of enumerate(a) it is (i, a_i)
             za = args[0].single_atom()
@@ -852,11 +858,13 @@ class Conv:
                     t.atoms[ba].args):
                 return t.atoms[ba].args[int(k)]
         if base.single_atom() is None and len(conv) == 1 and \
-                isinstance(conv[0], RF) and base.atoms() and \
+                isinstance(conv[0], (RF, Slice)) and base.atoms() and \
                 not getattr(self, 'no_distribute', False):
             # element-wise arithmetic commutes with picking one element:
             # (a*b + c)[i] == a[i]*b[i] + c[i]
             i = conv[0]
+            if base.const() is not None:
+                return base
 
             def pick(a, at, nargs):
                 # a module-level constant (KBOLTZ, PI, AMU ...) is a scalar: picking an element leaves it alone
